@@ -135,6 +135,7 @@ OBLIGATIONS['C18'] = [
     ('common::RegisteredLabelWithPrivate::from_cbor_value', 'body'), ('header::ProtectedHeader::from_cbor_bstr', 'body'),
 ]
 OBLIGATIONS['C10'] = [
+    ('vroundtrip_key::*', 'lemma'),
     ('iana::KeyType::*', 'body'), ('iana::KeyOperation::*', 'body'), ('iana::Algorithm::*', 'body'), ('registry_proofs::registry_KeyType', 'kani'), ('registry_proofs::registry_KeyOperation', 'kani'), ('registry_proofs::registry_Algorithm', 'kani'),
     ('key::CoseKey::from_cbor_value', 'body'), ('key::CoseKeySet::from_cbor_value', 'body'), ('key::CoseKey::to_cbor_value', 'body'), ('key::CoseKeySet::to_cbor_value', 'body'),
     ('common::Label::from_cbor_value', 'body'), ('common::RegisteredLabel::from_cbor_value', 'body'), ('common::RegisteredLabelWithPrivate::from_cbor_value', 'body'),
@@ -178,6 +179,8 @@ OBLIGATIONS['C20'] = [
     ('key::CoseKey::to_cbor_value', 'body'), ('key::CoseKey::from_cbor_value', 'body'), ('key::lemma_key_roundtrip', 'lemma'),
     ('common::Label::cmp', 'body'), ('common::Label::cmp_canonical', 'body'), ('common::lemma_label_cmp_laws', 'lemma'),
     ('vcbor::lemma_label_order_is_encoding_order', 'lemma'), ('vcbor::lemma_cmp_canonical_is_len_first', 'lemma'),
+    # canonicalising again is a no-op (uniqueness of the sorted arrangement of distinct labels), stated on the real function
+    ('videm::lemma_*', 'lemma'), ('videm::check_canonicalize_twice_*', 'body'),
 ]
 # C01: every exec function on the decode path and every follow-up helper is verified panic-free and terminating for ALL inputs,
 # with no precondition (decoders, encoders, Clone-free helpers) or only the documented ones (index, payload/ciphertext, context)
@@ -223,7 +226,7 @@ OBLIGATIONS['C07'] = [
     ('vstubs::check_*', 'body'),
     # fixed point (decode -> encode -> decode -> encode) for header maps, COSE_Signature, every message type and recipients
     # at any nesting, and for CWT claims sets
-    ('vroundtrip::*', 'lemma'), ('vroundtrip_cwt::*', 'lemma'),
+    ('vroundtrip::*', 'lemma'), ('vroundtrip_cwt::*', 'lemma'), ('vroundtrip_key::*', 'lemma'),
 ]
 OBLIGATIONS['C08'] = [
     ('iana::Algorithm::*', 'body'), ('iana::HeaderParameter::*', 'body'), ('iana::CoapContentFormat::*', 'body'), ('registry_proofs::registry_Algorithm', 'kani'), ('registry_proofs::registry_HeaderParameter', 'kani'), ('registry_proofs::registry_CoapContentFormat', 'kani'),
@@ -243,12 +246,30 @@ MEASUREMENTS = {'C01': ['c01-measure']}
 # Used ONLY to look for a failing input after the verifier flagged the property (failed obligation, or undecidable on a
 # changed tree), and as a labelled bounded extra in the thorough tier.  They do not decide anything on the unchanged tree.
 PROBES = {
-    'C02': ['structures', 'headers'], 'C03': ['structures'], 'C04': ['structures'], 'C05': ['structures'], 'C06': ['structures'],
+    'C02': ['structures', 'headers', 'roundtrip'], 'C03': ['structures'], 'C04': ['structures'], 'C05': ['structures'], 'C06': ['structures'],
     'C08': ['headers'], 'C12': ['headers', 'keys', 'claims'], 'C09': ['framing', 'headers'], 'C13': ['framing'], 'C14': ['framing'],
     'C15': ['integers'], 'C16': ['order'], 'C20': ['order'],
     'C10': ['keys'], 'C18': ['claims', 'integers'], 'C19': ['builders'], 'C07': ['roundtrip'], 'C11': ['roundtrip'], 'C01': ['roundtrip', 'framing', 'headers', 'keys', 'claims', 'integers', 'structures', 'builders', 'order'],
 }
 
+# users of the core functions that the property statements cover as well
+OBLIGATIONS['C02'] += [
+    ('context::*::from_cbor_value', 'body'), ('context::*::to_cbor_value', 'body'),
+    ('sign::*::tbs_data', 'body'), ('sign::*::tbs_detached_data', 'body'), ('mac::*::tbm', 'body'), ('encrypt::*::decrypt', 'body'),
+    ('sign::*::verify_*', 'body'), ('mac::*::verify_tag', 'body'),
+    ('sign::*Builder::*create*signature', 'body'), ('sign::*Builder::*add_*signature', 'body'),
+    ('mac::*Builder::*create_tag', 'body'), ('encrypt::*Builder::*create_ciphertext', 'body'), ('encrypt::CoseRecipientBuilder::aad', 'body'),
+]
+OBLIGATIONS['C03'] += [
+    ('sign::*::verify_*', 'body'), ('sign::*Builder::*create*signature', 'body'), ('sign::*Builder::*add_*signature', 'body'),
+]
+OBLIGATIONS['C06'] += [     # the wire hop between creation and verification
+    ('sign::*::to_cbor_value', 'body'), ('sign::*::from_cbor_value', 'body'), ('mac::*::to_cbor_value', 'body'), ('mac::*::from_cbor_value', 'body'),
+    ('encrypt::*::to_cbor_value', 'body'), ('encrypt::*::from_cbor_value', 'body'),
+    ('header::ProtectedHeader::from_cbor_bstr_nested', 'body'), ('header::ProtectedHeader::cbor_bstr', 'body'),
+    ('sign::*::tbs_data', 'body'), ('sign::*::tbs_detached_data', 'body'), ('mac::*::tbm', 'body'),
+    ('sign::sig_structure_data', 'body'), ('mac::mac_structure_data', 'body'), ('encrypt::enc_structure_data', 'body'),
+]
 for _p in ('C02', 'C07'):
     OBLIGATIONS[_p] += [('header::Header::is_empty', 'body'), ('header::ProtectedHeader::is_empty', 'body')]
 
